@@ -283,6 +283,21 @@ func TestVerifC20(t *testing.T) {
 			vfExploreTree(run, root, files, 2, orders)
 		}
 	}
+	// directory / file names that are prefixes of one another (mm/vmm/ next to mm/vmm.go, cpu/ next to cpu.go, a_b/ next to a.go):
+	// the destination's import path is the file's own directory, whatever was walked before it
+	if run.Mine(idx + 1) {
+		layouts := [][]vfFileSpec{
+			{{"mm/vmm/x.go", []int{1}}, {"mm/vmm.go", []int{1, 3}}, {"mm/vmm_amd64.go", []int{4}}},
+			{{"cpu/c.go", []int{3}}, {"cpu.go", []int{1}}, {"cpu_amd64.go", []int{2}}},
+			{{"a/b/c.go", []int{1}}, {"a/b.go", []int{1}}, {"a.go", []int{1}}, {"a_b/c.go", []int{3}}},
+			{{"mm/vmm/x.go", []int{0}}, {"mm/vmm.go", []int{1}}},
+			{{"k/kk/kkk/d.go", []int{1}}, {"k/kk/kkk.go", []int{4}}, {"k/kk.go", []int{2}}, {"k.go", []int{1}}, {"kz/e.go", []int{1}}},
+		}
+		for _, l := range layouts {
+			vfExploreTree(run, root, l, -1, orders)
+			run.ForceSample(map[string]interface{}{"tree": vfTreeDesc(l)})
+		}
+	}
 	if run.Shard == 0 {
 		// the kernel tree itself: table == independent scanner, and two free runs agree (sampling cross-check)
 		repo := os.Getenv("VERIF_REPO")
@@ -310,6 +325,6 @@ func TestVerifC20(t *testing.T) {
 	for o := range orders {
 		run.Distinct(o)
 	}
-	run.Finish(!run.Capped(), "source trees: every single item and ordered pair of 11 declaration kinds (annotated function, with other directives, two annotations, method, comment detached by a blank line, on a var, on a type, inside a body, trailing comment, prose mention, plain) in one file, triples with 4 annotated kinds, 5-file trees with nested directories, a _test.go file and a non-Go file; every iteration order of every map-typed range executed (full product for one map; <=2 non-identity orders for multi-file trees; triples <=1 in quick, full in thorough); plus the kernel tree itself",
+	run.Finish(!run.Capped(), "source trees: every single item and ordered pair of 11 declaration kinds (annotated function, with other directives, two annotations, method, comment detached by a blank line, on a var, on a type, inside a body, trailing comment, prose mention, plain) in one file, triples with 4 annotated kinds, 5-file trees with nested directories, a _test.go file and a non-Go file; trees whose directory and file names are prefixes of one another (mm/vmm/ next to mm/vmm.go, cpu/ next to cpu.go); every iteration order of every map-typed range executed (full product for one map; <=2 non-identity orders for multi-file trees; triples <=1 in quick, full in thorough); plus the kernel tree itself",
 		"distinct = distinct redirect tables observed; every execution compares the ordered table with an independent go/parser scanner")
 }
